@@ -154,13 +154,15 @@ template<class S> void runCase(const CaseSpec &cs)
 	const size_t n = cs.stages.size();
 	std::vector<std::unique_ptr<Tap>> taps;
 	std::vector<std::optional<Bit>> stallPins(n);
-	S cur = move(in);
-	// `in` is moved from; keep handles to the head's signals for driving
+	// every stream object stays alive and is never assigned to (move-assigning a gatery signal re-drives the old one)
+	std::vector<std::unique_ptr<S>> strs;
+	strs.push_back(std::make_unique<S>(move(in)));
 	for (size_t i = 0; i < n; i++) {
-		taps.push_back(makeTap(cur, i));
-		cur = applyStage(move(cur), cs.stages[i], i, stallPins);
+		taps.push_back(makeTap(*strs.back(), i));
+		strs.push_back(std::make_unique<S>(applyStage(move(*strs.back()), cs.stages[i], i, stallPins)));
 	}
-	taps.push_back(makeTap(cur, n));
+	taps.push_back(makeTap(*strs.back(), n));
+	S &cur = *strs.back();
 	// consumer: ready is either driven directly or (adversarial patterns) a combinational function of the offered valid —
 	// built as logic here because a simulation process cannot change inputs after WaitStable()
 	Bit rRaw = pinIn().setName("out_ready_raw");
